@@ -174,10 +174,15 @@ func TestVersionedGateway(t *testing.T) {
 		var edits []string
 		differ := false
 		for _, svc := range part.Services {
-			nv := rapid.IntRange(1, 3).Draw(t, "nversions")
+			nv := rapid.SampledFrom([]int{1, 2, 3, 3}).Draw(t, "nversions")
 			spec := base
 			for vi := 0; vi < nv; vi++ {
 				if vi > 0 {
+					if vi >= 2 && rapid.Bool().Draw(t, "frombase") {
+						// not a chain of deploys: this version was cut from the first one again
+						// (what the version in between changed is not in it)
+						spec = base
+					}
 					var log []string
 					spec, log = deriveVersion(t, spec)
 					if len(log) > 0 {
